@@ -502,7 +502,6 @@ def run(ctx: Ctx) -> None:
     # (a) the machine as built: flags = reference until a deviation fires; the repaired machine
     #     (same run, variable mfix) equals the reference on every history
     inv = INVS.format(agree="AgreeUnlessFired")
-    SH_6 = '{"fork", "call", "ufork", "merge1", "rb"}'
     if ctx.quick:
         main = [("5 ops, all shapes", handles_cfg("Spec", one, K1, UK, C1, 3, 5, ALL_DEV, SH_ALL, inv)),
                 ("6 ops, forks/calls/merges/rollbacks",
@@ -510,14 +509,14 @@ def run(ctx: Ctx) -> None:
                 ("4 ops, two names, chained user forks, rollback of unrecorded states",
                  handles_cfg("Spec", two, K1, UK, C1, 3, 4, ALL_DEV, SH_MID, inv))]
     else:
-        main = [("6 ops, forks/user forks/calls/merges/rollbacks, depth 2",
-                 handles_cfg("Spec", one, K1, UK, C1, 2, 6, ALL_DEV, SH_6, inv)),
-                ("6 ops, all shapes", handles_cfg("Spec", one, K1, UK, C2, 3, 6, ALL_DEV, SH_ALL, inv)),
-                ("6 ops, depth 4, no user forks",
+        main = [("6 ops, all shapes", handles_cfg("Spec", one, K1, UK, C1, 3, 6, ALL_DEV, SH_ALL, inv)),
+                ("5 ops, all shapes, two call hashes", handles_cfg("Spec", one, K1, UK, C2, 3, 5, ALL_DEV, SH_ALL, inv)),
+                ("6 ops, depth 4, two-parent merges, no user forks",
                  handles_cfg("Spec", one, K1, UK, C2, 4, 6, ALL_DEV, '{"fork", "call", "merge1", "merge2", "rb"}', inv)),
-                ("5 ops, two names, wide shapes", handles_cfg("Spec", two, K1, UK, C1, 3, 5, ALL_DEV, SH_WIDE, inv)),
-                ("4 ops, all shapes, rollback idempotence",
-                 handles_cfg("Spec", one, K1, UK, C2, 3, 4, ALL_DEV, SH_ALL, inv + "INVARIANT RbIdempotent\n"))]
+                ("5 ops, two names, chained user forks, rollback of unrecorded states",
+                 handles_cfg("Spec", two, K1, UK, C1, 3, 5, ALL_DEV, SH_MID, inv)),
+                ("4 ops, two names, wide shapes, rollback idempotence",
+                 handles_cfg("Spec", two, K1, UK, C1, 3, 4, ALL_DEV, SH_WIDE, inv + "INVARIANT RbIdempotent\n"))]
     for what, cfg in main:
         res = expect_clean(run_tlc("seq/Handles.tla", cfg, ctx.scratch, workers=ctx.pick(4, "auto"), timeout=1500,
                                    heap=ctx.pick("4g", "8g")), what)
@@ -535,7 +534,7 @@ def run(ctx: Ctx) -> None:
     # (c) workflow level: every edit/revert history
     winv = ("VIEW WView\nINVARIANT AgreeF\nINVARIANT NeverReplayInvalidF\nINVARIANT AsBuiltUnlessFired\n"
             "INVARIANT OnlyForkEdge\nPROPERTY NoFastRevertF\n")
-    for stages, nruns in ctx.pick([(2, 4)], [(3, 4)]):
+    for stages, nruns in ctx.pick([(2, 4)], [(3, 3), (2, 5)]):
         wres = expect_clean(run_tlc("seq/HandlesWf.tla", wf_cfg("WSpec", ALL_DEV, stages, nruns, winv),
                                     ctx.scratch, workers=ctx.pick(4, "auto"), timeout=1500),
                             f"HandlesWf invariants ({stages} stages, {nruns} runs)")
@@ -567,9 +566,9 @@ def run(ctx: Ctx) -> None:
     ctx.sample({"source": "tlc-exhaustive", "behaviour": [s["op"] for s in behs[len(behs) // 2]]})
 
     # ---- 3. spec -> code: long simulated behaviours ---------------------------------------------
-    nsim = ctx.pick(120, 2500)
+    nsim = ctx.pick(120, 1000)
     depth = ctx.pick(6, 8)
-    scfg = handles_cfg("GSpec", two, K1, UK, C2, 4, depth, ALL_DEV, ctx.pick(SH_MID, SH_WIDE), "")
+    scfg = handles_cfg("GSpec", two, K1, UK, C2, 4, depth, ALL_DEV, SH_MID, "")
     sres = run_tlc("seq/Handles_Gen.tla", scfg, ctx.scratch, workers=1, simulate=f"num={nsim}",
                    depth=depth + 2, seed=ctx.seed + 1, timeout=1500)
     ctx.require(sres.error is None and not sres.violated, f"simulate failed: {sres.error} {sres.violated}")
@@ -586,7 +585,7 @@ def run(ctx: Ctx) -> None:
     ctx.note("asbuilt_drift", stats.get("ok-drift", 0))
 
     # ---- 4. code -> spec: random executions validated by TLC -------------------------------------
-    ntr = ctx.pick(120, 3000)
+    ntr = ctx.pick(120, 1500)
     traces = [gen_random_trace(ctx.rng, backend, f"r{n}", ctx.rng.randint(6, 16)) for n in range(ntr)]
     # the minimal histories of the two deviations (TLC's counterexamples of the control runs), executed on
     # the real backend and judged by TLC like every other trace
@@ -639,7 +638,7 @@ def run(ctx: Ctx) -> None:
     ctx.rng.shuffle(dev_h)
     ctx.rng.shuffle(plain_h)
     three = [w for w in wbehs if len(w["kinds"]) == 3][: ctx.pick(10, 0)]
-    chosen = dev_h[: ctx.pick(6, 150)] + plain_h[: ctx.pick(8, 450)] + [w for w in three if w not in dev_h[:6]]
+    chosen = dev_h[: ctx.pick(6, 100)] + plain_h[: ctx.pick(8, 200)] + [w for w in three if w not in dev_h[:6]]
     sched = new_scheduler()
     wstats: dict = {}
     for n, wb in enumerate(chosen):
